@@ -337,7 +337,7 @@ impl Prop for C13Prop {
         vec![Section {
             name: "random",
             kind: SectionKind::Random {
-                cases: tier.pick(1_500, 20_000),
+                cases: tier.pick(1_500, 12_000),
                 maxlen: 6000,
             },
             exhaustive: false,
